@@ -13,7 +13,21 @@ def run(path):
         return 0
     from . import core
     try:
-        if "rule" in d and "text" in d and ("idx" in d or "node" in d):
+        if d.get("in_place") and "start" in d and "sequence" in d:
+            cur = core.parse_fresh(d["start"])
+            start = core.to_tuple(cur)
+            print("-- re-executing IN PLACE with long-lived rule objects from", repr(d["start"]))
+            for rn, idx in d["sequence"]:
+                for r2 in core.RULE_NAMES:  # the walk asks every rule for its nodes before every step
+                    core.rule_instance(r2).find_nodes(cur)
+                node = core.inorder(cur)[int(idx)]
+                before = core.to_tuple(cur)
+                cur = core.rule_instance(rn).apply_to(node).result.get_root()
+                print(f"   {rn}@{idx}: {core.tuple_str(before)}  ->  {cur}")
+                print("      links:", core.audit_links(cur) or "consistent",
+                      " oracle vs previous state:", core.refines(before, core.to_tuple(cur)))
+            print("   oracle vs start:", core.refines(start, core.to_tuple(cur)))
+        elif "rule" in d and "text" in d and ("idx" in d or "node" in d):
             idx = d.get("idx", d.get("node"))
             root = core.parse_fresh(d["text"])
             node = core.inorder(root)[int(idx)]
